@@ -121,7 +121,9 @@ def check(s):
         for t, v in p.conds:
             scalar = v
         cases.add(scalar)
-        tag = "[scalar fill level]" if scalar else "[per-environment fill levels]"
+        # no case split: one formula serves both layouts; the per-environment form subsumes the scalar one
+        # (current_size[..., None] of a scalar has shape (1,), which broadcasts to the same mask)
+        tag = "[scalar fill level]" if scalar else ("[per-environment fill levels]" if scalar is False else "[uniform formula for scalar and per-environment fill levels]")
         r = p.ret
         ok = isinstance(r, tuple) and r[0] == "call" and r[1] == ("global", "jax.tree.map") and len(r[2]) == 2 and isinstance(r[2][0], Closure)
         s.ob("C06.3", con3 + tag, ok, "the batch is jax.tree.map(take, flattened buffer)", loc3, key="sample-shape", detail=show(r, maxlen=200))
@@ -162,11 +164,11 @@ out = jnp.take(x, idx, axis=0)
                  "probabilities depend on the fill level (position)", loc3, key="probs-from-fill", detail=show(kw.get("p", NONE), maxlen=160),
                  necessary_for="unwritten slots have probability zero")
             s.ob("C06.3", con3 + tag, ("param", "$x") not in set(walk(ch[0])), "the index node does not depend on the leaf", loc3, key="index-leaf-independent")
-    if cases != {True, False}:
+    if cases not in ({True, False}, {None}):
         raise AnalysisError(f"{con3}: expected scalar and vectorised fill-level cases, got {cases}")
     # ------------------------------------------------------------------ flatten_axes (C06.4 / C09.3)
     check_flatten(s, "C06.4")
-    for r_, n in (("C06.1", 30), ("C06.2", 30), ("C06.3", 14), ("C06.4", 3)):
+    for r_, n in (("C06.1", 30), ("C06.2", 30), ("C06.3", 14 if cases == {True, False} else 7), ("C06.4", 3)):
         s.floor(r_, n)
 
 
